@@ -8,7 +8,8 @@ is computed on it inside Coq (coq/Proofs/ExcFlowGen.v) for the HTTP fetch, FTP
 fetch, robots fetch and link-extraction entry points.
 
 Tie, second half (validation of the hand-written primitive table - an
-assumption, not a proof): a grammar-aware fuzzer drives the REAL entry points
+assumption, not a proof): end-to-end crawls of the real application against
+hostile scripted servers, and a grammar-aware fuzzer that drives the REAL entry points
 (harness/impl/c09_impl.py) with mutated HTTP responses, FTP dialogues and
 listings, robots.txt bodies and HTML / CSS / JavaScript / sitemap documents under
 random segmentations.  Every exception class observed must be covered by the
@@ -35,6 +36,7 @@ TRUSTED = [
     'the insides of the html5lib tokenizer, the CSS/JS regex scanners, the third-party robots.txt parser, gzip/zlib, urllib and '
     'http.cookiejar are primitives of the summary; for them the property is carried by the fuzz runs only',
     'harness/impl/c09_impl.py: scripted transport under the real Connection / StreamReader / clients / scrapers',
+    'harness/fakes/c09_ftpd.py + harness/fakes/crawl.py: scripted raw HTTP / FTP servers for the end-to-end crawls of the real application',
 ]
 ASSUMPTIONS = [
     'each library primitive raises only (subclasses of) the classes declared for it in excflow_tables.PRIMS',
@@ -44,16 +46,23 @@ ASSUMPTIONS = [
     'data is abstracted away in the summary: every branch, loop count and declared primitive failure is considered possible (over-approximation)',
 ]
 LEVEL_TEXT = ('Proved for all programs: the escape analysis is sound w.r.t. the may-raise semantics (escapes_sound). Proved by computation on '
-              'the summary regenerated from the tree on every run: every exception that can leave WebSession.start/download (C09_http), the '
-              'FTP Session.start/start_listing/download/download_listing (C09_ftp) or RobotsTxtChecker.can_fetch (C09_robots) is a subclass '
-              'of REMOTE_ERRORS, and DemuxDocumentScraper.scrape_info raises nothing (C09_scrape). All closed under the global context. '
-              'Carried by correspondence (fuzzing of the real entry points) only: the may-raise behaviour of library primitives, the '
-              'SAFE_SITES assumptions, and the insides of html5lib / regex scanners / robots parser / gzip. Not proved here: that the '
-              'processors mark the URL failed after a handled error and continue (C09_processor_marks of the design is not built; the '
-              'except REMOTE_ERRORS frames of processor/web.py and processor/ftp.py are where `handled` comes from).')
-LEVEL_NOTE = ('Proved on the tree with the fixes for F24 (over-long line -> bare ValueError), F34 (IndexError in the MS-DOS listing parser), '
-              'F35 (EOFError/OSError/zlib.error from a truncated or corrupt gzip sitemap/robots body) and the strict chunked-trailer parse '
-              '(ValueError on a trailer line without a colon). The model found all four before the fuzzer did.')
+              'the summary regenerated from the tree on every run (about 400 functions): every exception that can leave WebSession.start/download '
+              '(C09_http), the FTP Session.start/start_listing/download/download_listing (C09_ftp) or RobotsTxtChecker.can_fetch (C09_robots) '
+              'is a subclass of REMOTE_ERRORS; DemuxDocumentScraper.scrape_info raises nothing (C09_scrape); and the whole per-URL work of both '
+              'processors, WebProcessorSession.process and FTPProcessorSession.process (robots check, fetch loop, file writer, response '
+              'handling, link extraction, FTP parent listing / permissions) lets NO exception out (C09_process): the except REMOTE_ERRORS '
+              'frames catch every per-URL error kind and nothing else is raised, so the worker goes on to the next URL. All closed under the '
+              'global context. Carried by correspondence only (fuzzing of the real entry points + end-to-end crawls of the real application '
+              'against hostile scripted HTTP / FTP servers): the may-raise behaviour of library primitives, the SAFE_SITES assumptions, the '
+              'insides of html5lib / regex scanners / robots parser / gzip, and the local collaborators of the processors (ResultRule, '
+              'ItemSession, URL filters, hooks, coprocessors). Not proved: that a handled error ends in set_status(error|skipped) '
+              '(C09_processor_marks of the design) - only that process() returns normally; the e2e runs observe the row statuses.')
+LEVEL_NOTE = ('Proved on the tree with ten repairs: F24 (over-long line -> bare ValueError), F34 (IndexError in the MS-DOS listing parser), F35 '
+              '(EOFError/OSError/zlib.error from a truncated or corrupt gzip sitemap/robots body), strict chunked-trailer parse (ValueError), '
+              'robots.txt redirect to a host-less URL (AssertionError in the pool), FTP parent-listing and FTP permissions fetches outside '
+              'the except REMOTE_ERRORS frame, Last-Modified that is not a date (TypeError in the file writer), cannot-continue IOError of '
+              'the file writer, POST answered by 307/308 (RecursionError in Body.__getattr__). The first four and the two FTP processor ones '
+              'were found by the model, the others by the fuzz / e2e tie or by other readers and then confirmed end to end.')
 TECHNIQUE = 'translator-regenerated exception-flow summary + escape analysis proved sound in Coq, computed by vm_compute; primitive table validated by fuzzing'
 
 _STATE = {}
@@ -302,6 +311,13 @@ def http_response(r, status=None, hostile=None, body=None, extra=()):
     if r.randrange(4) == 0:
         fields.append(b'Content-Type: ' + r.choice([b'text/html', b'text/html; charset=utf-8', b'text/css', b'application/javascript',
                                                     b'text/html; charset=bogus', b'\xff/\xfe', b'text/html; charset="', b'']))
+    if r.randrange(4) == 0:
+        # header fields read by the file writer when the document is saved
+        fields.append(r.choice([b'Last-Modified: Wed, 09 Jun 2021 10:18:14 GMT', b'Last-Modified: never', b'Last-Modified: \xff\xfe', b'Last-Modified: 0',
+                                b'Last-Modified: Wed, 09 Jun 99999999999 10:18:14 GMT', b'Last-Modified: 31 Feb 2020 25:61:61', b'Last-Modified: ,',
+                                b'Last-Modified: Thu, 01 Jan 0001 00:00:00 GMT', b'Last-Modified: 1 Jan 1 0:0:0 +9999',
+                                b'Content-Disposition: attachment; filename="../../x"', b'Content-Disposition: attachment; filename=', b'Content-Disposition: filename="',
+                                b'Content-Disposition: attachment; filename=\x00\xff/..', b"Content-Disposition: inline; filename='a;b'; x"]))
     if hostile:
         for _ in range(r.choice([0, 1, 1, 2])):
             fields.insert(r.randrange(len(fields) + 1), r.choice([
@@ -336,7 +352,7 @@ def gen_http(r):
             msg += http_response(r, None)[0]          # pipelined garbage left on a keep-alive connection
         ex.append([H(s) for s in segs(r, msg)])
     url = r.choice(['http://h.test/a', 'http://h.test/dir/a?x=1', 'http://user:pw@h.test/a', 'http://h.test:8080/', 'https://h.test/a'])
-    return {'kind': 'http', 'url': url, 'exchanges': ex, 'cookies': r.randrange(4) != 0, 'login': r.randrange(5) == 0,
+    return {'kind': 'http', 'url': url, 'exchanges': ex, 'cookies': r.randrange(4) != 0, 'login': r.randrange(5) == 0, 'post': r.randrange(6) == 0,
             'max_redirects': r.choice([0, 1, 5]), 'tag': 'hostile' if hostile_any else 'valid'}
 
 
@@ -590,6 +606,8 @@ def gen_e2e_http(r, k=8):
                    '--span-hosts', '--max-redirect', '2']
     if not robots:
         args.append('--no-robots')
+    if r.randrange(2):
+        args += ['--content-disposition', '--adjust-extension']
     return {'kind': 'e2e', 'proto': 'http', 'args': args, 'raw_http': table, 'tag': 'e2e-http%s' % ('+robots' if robots else ''), 'tags': tags}
 
 
@@ -653,6 +671,9 @@ CORPUS = [
     # strict trailer parse: a trailer line without a colon -> ValueError('Field missing colon.')
     {'kind': 'http', 'url': 'http://h.test/a', 'tag': 'corpus-trailer-nocolon',
      'exchanges': [[H(b'HTTP/1.1 200 OK\r\nTransfer-Encoding: chunked\r\n\r\n5\r\nhello\r\n0\r\nnocolon\r\n\r\n')]]},
+    # a POST answered by 307 / 308: the original request (with its body) is copied -> RecursionError in Body.__getattr__
+    {'kind': 'http', 'url': 'http://h.test/a', 'post': True, 'tag': 'corpus-post-307',
+     'exchanges': [[H(b'HTTP/1.1 307 X\r\nLocation: /b\r\nContent-Length: 0\r\n\r\n')], [H(b'HTTP/1.1 200 OK\r\nContent-Length: 2\r\n\r\nok')]]},
     # F23 / F25 (round 1): two final lines in one FTP reply read; PASV numbers out of range
     {'kind': 'ftp', 'url': 'ftp://h.test/f', 'listing': False, 'ctrl': H(b'220 a\r230 b\r\n'), 'ctrl_segs': [], 'data': '', 'data_segs': [],
      'tag': 'corpus-F23'},
@@ -684,6 +705,16 @@ CORPUS_E2E = [
                          'PASV': [H(b'227 Entering Passive Mode (127,0,0,1,{P1},{P2})\r\n')], 'MLSD': [H(b'500 no\r\n')],
                          'LIST': [H(b'150 go\r\n226 done\r\n'), 'CLOSE'], 'RETR': [H(b'150 go\r\n226 done\r\n')]},
              'data': {'LIST': H(b'-rw-r--r-- 1 u g 5 Jan 01 2015 file.txt\r\n'), 'RETR': H(b'hello')}}},
+    # Last-Modified that is not a date -> time.mktime(None) in the file writer
+    {'kind': 'e2e', 'proto': 'http', 'tag': 'corpus-e2e-last-modified',
+     'args': ['http://raw0:{RAWPORT}/p0', 'http://ctl:{PORT}/control', '--tries', '1', '--concurrent', '1', '--timeout', '5', '--no-robots'],
+     'raw_http': {'/p0': H(b'HTTP/1.1 200 OK\r\nContent-Length: 2\r\nLast-Modified: never\r\n\r\nok')}},
+    # --continue and a server that ignores the Range request -> IOError out of the file writer
+    {'kind': 'e2e', 'proto': 'http', 'tag': 'corpus-e2e-cannot-continue',
+     'args': ['http://raw0:{RAWPORT}/p0', 'http://ctl:{PORT}/control', '--tries', '1', '--concurrent', '1', '--timeout', '5', '--no-robots', '-nH', '--continue'],
+     'raw_http': {'/p0': H(b'HTTP/1.1 200 OK\r\nContent-Length: 10\r\n\r\nhelloworld')},
+     'first_run': {'args': ['http://raw0:{RAWPORT}/p0', '--tries', '1', '--timeout', '5', '--no-robots', '-nH'],
+                   'raw_http': {'/p0': H(b'HTTP/1.1 200 OK\r\nContent-Length: 5\r\n\r\nhello')}}},
 ]
 
 
@@ -707,6 +738,27 @@ def _run_e2e_one(ctx, case):
     (concurrency 1).  The property fails when the crawl does not run to its normal end: it crashed, it stopped on
     an error before the control URL was requested, or it exited without the closing FINISHED statistics."""
     from harness.fakes import crawl
+    if case.get('first_run'):
+        # two crawls in one work directory: the first leaves files behind (for --continue)
+        import shutil
+        import tempfile
+        work = tempfile.mkdtemp(prefix='verif-c09-')
+        try:
+            first = dict(case, **case['first_run'])
+            first.pop('first_run')
+            _crawl_once(ctx, first, lambda spec: crawl.run_once(work, spec, 150))
+            for name in ('db.sqlite', 'requests.log'):
+                if os.path.exists(os.path.join(work, name)):
+                    os.remove(os.path.join(work, name))
+            second = dict(case)
+            second.pop('first_run')
+            return _crawl_once(ctx, second, lambda spec: crawl.run_once(work, spec, 150))
+        finally:
+            shutil.rmtree(work, ignore_errors=True)
+    return _crawl_once(ctx, case, lambda spec: crawl.run_crawl(spec, timeout=150))
+
+
+def _crawl_once(ctx, case, runner):
     spec = {'args': list(case['args']), 'repo': ctx.repo,
             'site': {'ctl': {'/control': {'body': 'control'}, '/robots.txt': {'status': 404}}}}
     if case['proto'] == 'http':
@@ -715,7 +767,7 @@ def _run_e2e_one(ctx, case):
     else:
         spec['ftp'] = case['ftp']
         spec['pre_hooks'] = ['harness.fakes.c09_ftpd.start']
-    r = crawl.run_crawl(spec, timeout=150)
+    r = runner(spec)
     reached = any(q.get('path') == '/control' for q in r.get('requests', []))
     err = r.get('stderr_tail') or ''
     crashed = 'unexpectedly crashed' in err
@@ -808,7 +860,7 @@ def _judge(cases, results, sets):
 
 
 QUICK = {'http': 8000, 'robots': 2500, 'ftp': 7000, 'scrape': 5000, 'e2e': 20}
-THOROUGH = {'http': 150000, 'robots': 40000, 'ftp': 150000, 'scrape': 100000, 'e2e': 600}
+THOROUGH = {'http': 80000, 'robots': 24000, 'ftp': 80000, 'scrape': 56000, 'e2e': 320}
 
 
 def correspondence(ctx):
@@ -817,10 +869,20 @@ def correspondence(ctx):
     if err:
         dis.append({'what': err})
     counts = THOROUGH if ctx.thorough else QUICK
-    cases = generate('main', counts)
-    results, remote = _run(ctx, cases)
-    d2, vio = _judge(cases, results, sets)
-    dis += d2
+    nb = 8 if ctx.thorough else 1               # batches bound the memory of the thorough tier
+    cases, results, vio, remote = [], [], [], None
+    for b in range(nb):
+        cs = generate('main' if nb == 1 else 'main/%d' % b, {k: v // nb for k, v in counts.items()})
+        if b:
+            cs = cs[len(CORPUS) + len(CORPUS_E2E):]     # the corpus once
+        rs, remote = _run(ctx, cs)
+        d2, v2 = _judge(cs, rs, sets)
+        dis += [d for d in d2 if (d.get('exc'), d.get('where')) not in [(x.get('exc'), x.get('where')) for x in dis]]
+        vio += [v for v in v2 if classify(v) not in [classify(x) for x in vio]]
+        # keep only what the statistics below need
+        cases += [{'kind': c['kind'], 'tag': c.get('tag', ''), '_h': hashlib.sha1(json.dumps(c, sort_keys=True).encode()).hexdigest(),
+                   '_small': c if len(json.dumps(c)) < 700 else None} for c in cs]
+        results += rs
     # the translated handled set is the running REMOTE_ERRORS
     tr = _translation(ctx)
     if tr.get('meta'):
@@ -836,13 +898,13 @@ def correspondence(ctx):
         e = '%s:%s' % (case['kind'], res['exc'] or ('ok' if not res.get('caught') else 'ok(inner handler fired)'))
         exc_hist[e] = exc_hist.get(e, 0) + 1
         if res['exc'] is not None or res.get('caught'):
-            nontrivial.add(hashlib.sha1(json.dumps(case, sort_keys=True).encode()).hexdigest())
+            nontrivial.add(case['_h'])
     samples = []
     for case, res in zip(cases, results):
         if len(samples) >= 8:
             break
-        if res['exc'] is not None and len(json.dumps(case)) < 700 and not any(s['exc'] == res['exc'] and s['kind'] == case['kind'] for s in samples):
-            samples.append({'kind': case['kind'], 'exc': res['exc'], 'where': res.get('where'), 'case': case})
+        if res['exc'] is not None and case['_small'] is not None and not any(s['exc'] == res['exc'] and s['kind'] == case['kind'] for s in samples):
+            samples.append({'kind': case['kind'], 'exc': res['exc'], 'where': res.get('where'), 'case': case['_small']})
     return {
         'evaluations': len(cases),
         'distinct_nontrivial': len(nontrivial),
@@ -854,7 +916,8 @@ def correspondence(ctx):
         'primitive_table_validation': 'fuzzing, not proof: %d real entry-point runs; every observed class must be in the model set' % len(cases),
         'partial': ['html5lib tokenizer', 'CSS/JS regex scanners (wpull.regexstream)', 'thirdparty robotexclusionrulesparser', 'gzip / zlib',
                     'urllib / wpull.url parsing of scraped links and redirect targets', 'http.cookiejar policy code',
-                    'processor frames (except REMOTE_ERRORS -> set_status) are not in the summary: handled is taken from the REMOTE_ERRORS constant'],
+                    'local collaborators of the processors (ResultRule, ItemSession, URL filters, PathNamer, hooks, coprocessors): primitives that raise nothing',
+                    'set_status(error|skipped) after a handled error is observed in the e2e runs only (no theorem)'],
         'safe_sites': {'used': tr['meta'].get('safe_sites_used') if tr.get('meta') else None,
                        'stale': tr['meta'].get('safe_sites_stale') if tr.get('meta') else None},
         'disagreements': dis,
@@ -864,7 +927,7 @@ def correspondence(ctx):
 
 def search(ctx, disagreements):
     """a proof / translator / correspondence broke: ten times the volume, other seeds"""
-    counts = {k: v * (3 if ctx.thorough else 10) for k, v in (THOROUGH if ctx.thorough else QUICK).items()}
+    counts = {k: v * (2 if ctx.thorough else (3 if k == 'e2e' else 6)) for k, v in (THOROUGH if ctx.thorough else QUICK).items()}
     cases = generate('search', counts)
     results, _ = _run(ctx, cases)
     _, vio = _judge(cases, results, None)
